@@ -2953,7 +2953,9 @@ where
                         footnote.total_references += 1;
                         nfr.ref_num = footnote.total_references;
                         nfr.ix = ix;
-                        nfr.name = strings::normalize_label(&footnote.name, Case::Preserve);
+                        // `footnote.name` is already normalised; normalising is not idempotent
+                        // (a label that starts with U+00A0 loses its first character the second time).
+                        nfr.name = footnote.name.clone();
                     } else {
                         replace = Some(nfr.name.clone());
                     }
